@@ -69,6 +69,8 @@ pub(super) fn creation_timestamp_of_currentfile(
             fmt,
         );
 
+        #[cfg(flexi_logger_verif)]
+        crate::verif_hooks::fs_point("rename", &current_path)?;
         match std::fs::rename(current_path.clone(), rotated_path.clone()) {
             Ok(()) => {}
             Err(e) => {
@@ -87,6 +89,8 @@ pub(super) fn latest_timestamp_file(
     rotate: bool,
     fmt: &InfixFormat,
 ) -> DateTime<Local> {
+    #[cfg(flexi_logger_verif)]
+    use crate::verif_hooks::Local;
     if rotate {
         Local::now()
     } else {
